@@ -67,6 +67,20 @@ func vCfgFollower(L int) *vCfgNode {
 	// at most one configuration entry above the commit index that was itself proposed before its predecessor committed
 	// cannot happen: a leader proposes C2 only after C1 committed; nothing to assume on the follower
 	r.fsm.index = r.commitIndex
+	// the FSM loop's view of the configuration: the newest configuration entry at or below what it has applied
+	for k, kind := range n.kinds {
+		if idx := uint64(k) + 1; kind == entryConfig && idx <= r.fsm.index {
+			e := &entry{}
+			if err := e.decode(bytes.NewReader(a.ents[k])); err != nil {
+				panic(err)
+			}
+			var c Config
+			if err := c.decode(e); err != nil {
+				panic(err)
+			}
+			r.fsm.config = c
+		}
+	}
 	r.leader = vU64("leader")
 	return n
 }
